@@ -109,15 +109,23 @@ def _run_vc(args):
             decide("%s/%s" % (vc.name, name), hyps, z3.And(goals), kind="path")
         real_paths = [p for p in paths if p.outcome != "aborted"]
         for pname, fn in vc.posts:
-            goals = []
-            for p in real_paths:
+            # one obligation per (postcondition, path): small queries discharge far faster than the merged formula
+            n_emitted = 0
+            for pi, p in enumerate(real_paths):
                 g_ = fn(p)
                 if g_ is None or g_ is True:
                     continue
                 if g_ is False:
                     g_ = z3.BoolVal(False)
-                goals.append(z3.Implies(z3.And(p.pc) if p.pc else z3.BoolVal(True), g_))
-            decide("%s/%s" % (vc.name, pname), hyps, z3.And(goals) if goals else z3.BoolVal(True))
+                if isinstance(g_, (list, tuple)):  # a post may split into several independent goals
+                    for gi, gg in enumerate(g_):
+                        n_emitted += 1
+                        decide("%s/%s#path%d.%d" % (vc.name, pname, pi, gi), hyps + list(p.pc), gg)
+                    continue
+                n_emitted += 1
+                decide("%s/%s#path%d" % (vc.name, pname, pi), hyps + list(p.pc), g_)
+            if n_emitted == 0:
+                decide("%s/%s" % (vc.name, pname), hyps, z3.BoolVal(bool(real_paths)))
         for lname, lh, lg in vc.lemmas:
             decide("%s/lemma:%s" % (vc.name, lname), list(lh), lg, kind="lemma")
         # vacuity guard 2: must-fail twins
@@ -138,9 +146,13 @@ def _run_vc(args):
     return out
 
 
-def run_vcs(ctx: core.Ctx, vcs: List[VC], text_by_clause: Optional[Dict[str, str]] = None):
+def run_vcs(ctx: core.Ctx, vcs: List[VC], text_by_clause: Optional[Dict[str, str]] = None, bounded: Optional[str] = None):
     """Explore + discharge every VC (16-process pool), then fold results into one proved clause per
-    clause name. Counter-models are replayed natively on the real function."""
+    clause name. Counter-models are replayed natively on the real function.
+
+    bounded: when given (a description of the shape bound), the VCs are the concrete-shape symbolic rung
+    ("S"): complete over all contents for the enumerated shapes only. The clause is then recorded as
+    kind 'bounded' (never counted as proved); its discharged obligations are reported as evaluations."""
     only = getattr(ctx, "only", None)
     if only:
         vcs = [v for v in vcs if any(v.clause.startswith(o) for o in only)]
@@ -232,6 +244,11 @@ def run_vcs(ctx: core.Ctx, vcs: List[VC], text_by_clause: Optional[Dict[str, str
                     ctx.undecided.append(ob["name"])
         c.backend = "+".join(sorted(backends))
         c.detail = "; ".join(problems)[:1500]
+        if bounded:
+            c.kind, c.bound = "bounded", bounded
+            c.evaluations, c.nontrivial, c.exhaustive = c.obligations, c.discharged, True
+            c.detail = ("symbolic over all contents per shape: %d obligations, %d discharged, %s, %.0f ms solver; " % (c.obligations, c.discharged, c.backend, c.solver_ms)) + c.detail
+            c.obligations = c.discharged = 0
         ctx.add_clause(c)
         if c.status == "undecided":
             ctx.log("UNDECIDED property=%s clause=%s %s" % (ctx.prop, clause, c.detail[:500]))
